@@ -53,6 +53,25 @@ def warm(d, rng_choice):
         d.to_newick()
 
 
+def use_dendrogram(d, op):
+    """read-only uses of a dendrogram that must leave it as it was"""
+    with warnings.catch_warnings():
+        warnings.simplefilter('ignore')
+        if op[0] == 'plotsub':
+            # a sub-tree plot: the lines of some structures with their descendants (what plot_tree(structure=...) and a
+            # viewer selection draw), asked for by object or by identifier, possibly twice
+            sts = list(d)
+            if sts:
+                p_ = d.plotter()
+                for k in op[1]:
+                    s_ = sts[k % len(sts)]
+                    p_.get_lines(structures=[s_] if op[2] else [int(s_.idx)], subtree=True)
+        elif op[0] == 'newickattr':
+            # the Newick string of single structures (trunk structures, or every structure parents first)
+            for s_ in (list(d.trunk) if op[1] == 'trunk' else list(d)):
+                s_.newick
+
+
 def run_session(case, ops=()):
     """returns (d, a, order, hook_used, [Step...]); raises impl.ImplError / Exception from the code"""
     drv = driver()
@@ -65,7 +84,7 @@ def run_session(case, ops=()):
     unit = float(2 ** case['fb'])
     for op in ops:
         if op[0] == 'prune':
-            _, mind, minn, crits, warmset = op
+            mind, minn, crits, warmset = op[1:5]
             warm(d, warmset)
             kw = {}
             md = Fraction(mind, 2 ** case['fb'])
@@ -77,6 +96,26 @@ def run_session(case, ops=()):
             fs = impl.user_criteria(c2, unit)
             if fs:
                 kw['is_independent'] = fs if len(fs) > 1 else fs[0]
+                if case.get('crit_container', 'list') != 'list' and not case.get('reuse'):
+                    kw['is_independent'] = impl.as_container(fs, case['crit_container'])
+            before = dict(d.params)
+            if len(op) > 5 and op[5] == 'failfirst':
+                # fault path: the same prune, but a user criterion raises the first time it is asked (i.e. at the first
+                # leaf that passes everything else).  If the failed call had not touched the tree yet, the legal call
+                # that follows must behave as if the failed one had never happened.
+                n0 = len(list(d.all_structures))
+                lm0 = np.array(d.index_map, copy=True)
+                kwf = dict(kw)
+                kwf['is_independent'] = list(fs) + [impl.raiser(0)]
+                try:
+                    with warnings.catch_warnings():
+                        warnings.simplefilter('ignore')
+                        d.prune(**kwf)
+                    # the failing criterion was never asked: this WAS the prune; the call below repeats it
+                except impl.Injected:
+                    pass
+                if len(list(d.all_structures)) != n0 or not np.array_equal(lm0, d.index_map):
+                    raise impl.SkipCase('the injected fault hit after structures had been merged')
             if case.get('reuse'):
                 # one criteria list object first handed to a stricter prune of an unrelated dendrogram
                 lst = list(fs)
@@ -87,7 +126,6 @@ def run_session(case, ops=()):
                     oshape = [s_ + 2 for s_ in case['shape']]
                     Dendrogram.compute((np.arange(int(np.prod(oshape)), dtype=float) * 5 % 7).reshape(oshape)).prune(
                         min_delta=kw.get('min_delta', 0) + 3, min_npix=minn + 2, is_independent=lst)
-            before = dict(d.params)
             with warnings.catch_warnings():
                 warnings.simplefilter('ignore')
                 d.prune(**kw)
@@ -125,6 +163,16 @@ def run_session(case, ops=()):
             d = d2
         elif op[0] == 'warm':
             warm(d, op[1])
+        elif op[0] == 'plotter':
+            with warnings.catch_warnings():
+                warnings.simplefilter('ignore')
+                d.plotter().get_lines()
+        elif op[0] in ('plotsub', 'newickattr'):
+            use_dendrogram(d, op)
+            wf = impl.forest_wellformed(d)
+            iobs = impl.observe(d, case) if not wf else None
+            mobs = parse_block(drv.ask('obs'))
+            steps.append(Step(op, iobs, mobs, wf))
         elif op[0] == 'catalog':
             # building a catalog must leave the dendrogram as it was
             nd = len(case['shape'])
